@@ -200,6 +200,9 @@ def classify(files, outs, charset="bk", pad_weight=1):
         in_repeat = ("metacommands.py", "repeat") in stack          # a finite range() loop is running
         in_lazy = any(f == "deferred.py" for f, _ in stack[-6:])
         if in_repeat or (in_lazy and executed_pads(text) * pad_weight > 10):
+            if os.environ.get("VERIF_DEBUG_LAST"):
+                with open(f"/dev/shm/c08-slow-{os.getpid()}.txt", "a") as f_:
+                    f_.write(repr(text[:300]) + "\n")
             return None, "inconclusive-slow-finite"
         # confirm in a fresh process with a generous limit - once per shard: every further watchdog hit behind a confirmed hang is
         # only counted (re-confirming each one, also while shrinking, would cost more than a minute apiece)
@@ -277,7 +280,7 @@ def tree_case(draw):
             if how == "no":
                 return m.group(0)
             wrapped += 1
-            count = {"number": "2", "late": f"wq{wrapped}", "address": f"aq{wrapped} / 400"}[how]
+            count = {"number": "2", "late": f"wq{wrapped}", "address": f"aq{wrapped} / 40000 + 1"}[how]
             head = f"aq{wrapped}:\n" if how == "address" else ""
             return f"{head}{m.group(1)}.repeat {count} {{\n{m.group(1)}\t{m.group(2)}\n{m.group(1)}}}\nzq{wrapped}:"
         tree[path] = INCLUDE_LINE.sub(wrap, tree[path])
@@ -370,6 +373,8 @@ def grid_cases(tier, seed):
             for o2 in GRID_OPERANDS:
                 if not o2:
                     continue
+                if head == ".repeat" and o1 in ("177777", "200000", "<177777>", "<200000>", "1<<x", "lab*2", "lab", "(lab)", "<lab>", "lab+lab", "1.", "0x1f", "^X1f", "8"):
+                    continue      # a five- or six-digit repeat count is outside G's magnitude bounds (finite, but minutes per text)
                 for sep in (", ", " "):
                     n += 1
                     if tier == "quick" and (n + seed) % 16:
@@ -378,6 +383,10 @@ def grid_cases(tier, seed):
 
 
 def judge(case):
+    if os.environ.get("VERIF_DEBUG_LAST"):
+        with open(f"/dev/shm/c08-last-{os.getpid()}.json", "w") as f_:
+            import json as _json
+            _json.dump(case, f_)
     if case["kind"] == "tree":
         tree = dict(case["tree"])
         tree.update({k: bytes.fromhex(v) for k, v in case.get("blobs", {}).items()})
